@@ -440,20 +440,11 @@ class RefBuild:
             if not self.request(d, forced=forced):
                 ok = False
                 if not self.keep_going:
-                    # slack S2: the failure of d is noticed only when the process next has to wait for
-                    # a token; siblings that need no run are passed over without waiting, and the first
-                    # later sibling that does need a run may already have been started (the order in
-                    # which a finished job and a free token are noticed is unspecified).  Accepted if
-                    # the implementation was seen to run it.
-                    for nxt in names[i + 1:]:
-                        if nxt == parent or self.done.get(nxt) == "running":
-                            break
-                        if not forced and (nxt in self.done or not self.would_run(nxt)):
-                            continue
-                        if nxt in self.observed:
-                            self.slack.append(nxt)
-                            self.request(nxt, forced=forced)
-                        break
+                    # (no slack here: at -j1 a job's failure is known by the time its token is back, and the
+                    # token is what the next sibling needs in order to start -- "without --keep-going no new
+                    # target is started after the first failure is known".  An earlier version of this model
+                    # tolerated the sibling right behind the failing target having been started: slack S2,
+                    # withdrawn -- see DESIGN.md 9.10, defect D33.)
                     break
         return ok
 
